@@ -23,7 +23,17 @@ def abs_trap(trap):
         f = form_of_x690(vb.value)
         vbs.append([oid_digits(tuple(vb.oid.nodes)), f[0], f[1]])
     src = trap.source
-    return dict(origin=[src.address, src.port] if src is not None else ["", 0], vbs=vbs)
+    out = dict(origin=[src.address, src.port] if src is not None else ["", 0], vbs=vbs)
+    # the pythonic view of the same notification (puresnmp.api.pythonic.TrapInfo)
+    try:
+        from puresnmp.api.pythonic import TrapInfo
+        ti = TrapInfo(trap)
+        up = ti.uptime
+        out["info"] = dict(origin=ti.origin, oid=oid_digits(tuple(int(x) for x in ti.oid.split("."))),
+                           uptime=[up.days, up.seconds, up.microseconds], keys=[oid_digits(tuple(int(x) for x in k.split("."))) for k in ti.values])
+    except Exception as e:  # noqa
+        out["info"] = dict(origin="?" + exc_name(e), oid=[], uptime=[0, 0, 0], keys=[])
+    return out
 
 
 def run_word(word, community="public", mode="protocol"):
